@@ -305,8 +305,8 @@ class MetaFile:
             "info": {},
         }
 
-        # Format piece_length attribute.
-        if piece_length:
+        # Format piece_length attribute (None or "" mean: not given).
+        if piece_length is not None and piece_length != "":
             self.piece_length = utils.normalize_piece_length(piece_length)
             logger.debug("piece length parameter found %s", piece_length)
         else:
